@@ -65,6 +65,8 @@ def writer_obligations(ctx, rule_dom, rule_fail, unit, pat, bi, li, sizer, null_
             ok = True
         elif g is None and G.is_failpath_memset(fn, w, vals, lslot):
             ok = True
+        elif G.whole_capacity_memset(fn, w, bslot, lslot):
+            ok = True      # memset(buffer,0,len) on the untouched parameters is within capacity wherever it stands
         else:
             ok = False
         ctx.ob(rule_dom, "%s:%s@%s" % (name, kind, _ordinal(ctx, rule_dom, name, kind)), ok, site=w.where(),
@@ -84,7 +86,8 @@ def writer_obligations(ctx, rule_dom, rule_fail, unit, pat, bi, li, sizer, null_
                what="%s compares len with a value that is not the result of %s" % (name, sizer))
     # fail closed: the not-fit successor holds memset(buffer,0,len) and returns 0 (when the function has such an edge body)
     nofit_block = fn.bmap[g["nofit"]]
-    has_memset = any(G.is_failpath_memset(fn, i, vals, lslot) for i in nofit_block.insts)
+    has_memset = any(G.is_failpath_memset(fn, i, vals, lslot) for i in nofit_block.insts) or \
+        any(G.whole_capacity_memset(fn, w, bslot, lslot) and fn.dominates(w, g["br"]) for _, w in writes)
     ret0 = G.returns_constant_on(fn, g["nofit"], "0")
     other_writes = [w for k, w in writes if fn.edge_dominates(g["br"].block.label, g["nofit"], w) and not G.is_failpath_memset(fn, w, vals, lslot)]
     if unit == "subtree-serialize.cpp":
